@@ -18,6 +18,7 @@ WIN = "miasm/os_dep/win_api_x86_32.py"
 LEVEL_TEXT = ("Static rules over the bump allocators: symbolic progress of the cursor update (align-up form needs a size "
               "term >= 1), must-map on every path from cursor read to exit with the same address and size. Decides these "
               "necessary clauses for every request sequence; allocates nothing.")
+LEVEL_TEXT += ' Also: a guest-supplied address is returned as an allocation only under the must-fact that it is the base of an existing mapping.'
 ASSUMPTIONS = ["CPython ast", "sizes are non-negative integers", "overlap refusal is provided by vm_add_memory_page (C24-R3)"]
 
 
